@@ -397,85 +397,89 @@ func (p c04) Run(t *testing.T, s harness.Scenario) harness.Outcome {
 			keys = append(keys, k)
 		}
 		sort.Strings(keys)
-		for _, k := range keys {
-			one := refredis.New()
-			if v, ok := init.RawString(k); ok {
-				one.SetString(k, v)
-			}
-			ops := byKey[k]
-			describe := func() string {
-				sort.Slice(ops, func(i, j int) bool { return ops[i].Call < ops[j].Call })
-				var hist []string
-				for _, o := range ops {
-					in := o.Input.(c04In)
-					tag := ""
-					if redirected[formKey(in.args)] {
-						tag = " (redirected)"
-					}
-					if atReplica[formKey(in.args)] {
-						tag += " (executed by a replica)"
-					}
-					if in.indet {
-						tag += " (admitted error)"
-					}
-					ret := fmt.Sprint(o.Return)
-					if o.Return >= 1<<59 {
-						ret = "inf"
-					}
-					hist = append(hist, fmt.Sprintf("c%d#%d [%d,%s] %q -> %s%s", in.conn, in.idx, o.Call, ret, trunc(bytes.Join(in.args, []byte(" ")), 50), o.Output.(resp2.Value).String(), tag))
+		w.post = append(w.post, func() *simrtViolation {
+			for _, k := range keys {
+				progressTick()
+				one := refredis.New()
+				if v, ok := init.RawString(k); ok {
+					one.SetString(k, v)
 				}
-				return strings.Join(hist, "; ")
-			}
-			switch porcupine.CheckOperationsTimeout(c04Model(one, false), ops, 20*time.Second) {
-			case porcupine.Illegal:
-				// an error that the model does not produce and that is not admitted makes the history illegal too
-				clause := "linearizable"
-				// would the history be fine if every error reply were "may or may not have happened"?  then the
-				// only thing wrong is an error returned while no owner was unreachable
-				relaxed := make([]porcupine.Operation, len(ops))
-				anyErr := false
-				for i, o := range ops {
-					relaxed[i] = o
-					if o.Output.(resp2.Value).IsErr() {
+				ops := byKey[k]
+				describe := func() string {
+					sort.Slice(ops, func(i, j int) bool { return ops[i].Call < ops[j].Call })
+					var hist []string
+					for _, o := range ops {
 						in := o.Input.(c04In)
-						in.indet = true
-						relaxed[i].Input = in
-						relaxed[i].Return = 1 << 60
-						anyErr = true
+						tag := ""
+						if redirected[formKey(in.args)] {
+							tag = " (redirected)"
+						}
+						if atReplica[formKey(in.args)] {
+							tag += " (executed by a replica)"
+						}
+						if in.indet {
+							tag += " (admitted error)"
+						}
+						ret := fmt.Sprint(o.Return)
+						if o.Return >= 1<<59 {
+							ret = "inf"
+						}
+						hist = append(hist, fmt.Sprintf("c%d#%d [%d,%s] %q -> %s%s", in.conn, in.idx, o.Call, ret, trunc(bytes.Join(in.args, []byte(" ")), 50), o.Output.(resp2.Value).String(), tag))
 					}
+					return strings.Join(hist, "; ")
 				}
-				if anyErr && porcupine.CheckOperationsTimeout(c04Model(one, false), relaxed, 20*time.Second) == porcupine.Ok {
-					clause = "error-while-owner-reachable"
-				}
-				for _, o := range ops {
-					if atReplica[formKey(o.Input.(c04In).args)] && sc.Env.ReadStrategy == 0 {
-						// under the MASTER read strategy a read was executed by a node that is a replica (a demoted
-						// master keeps serving reads because the proxy sends READONLY on every backend connection)
-						clause = "linearizable-read-at-demoted-master"
+				switch porcupine.CheckOperationsTimeout(c04Model(one, false), ops, linTimeout) {
+				case porcupine.Illegal:
+					// an error that the model does not produce and that is not admitted makes the history illegal too
+					clause := "linearizable"
+					// would the history be fine if every error reply were "may or may not have happened"?  then the
+					// only thing wrong is an error returned while no owner was unreachable
+					relaxed := make([]porcupine.Operation, len(ops))
+					anyErr := false
+					for i, o := range ops {
+						relaxed[i] = o
+						if o.Output.(resp2.Value).IsErr() {
+							in := o.Input.(c04In)
+							in.indet = true
+							relaxed[i].Input = in
+							relaxed[i].Return = 1 << 60
+							anyErr = true
+						}
 					}
+					if anyErr && porcupine.CheckOperationsTimeout(c04Model(one, false), relaxed, linTimeout) == porcupine.Ok {
+						clause = "error-while-owner-reachable"
+					}
+					for _, o := range ops {
+						if atReplica[formKey(o.Input.(c04In).args)] && sc.Env.ReadStrategy == 0 {
+							// under the MASTER read strategy a read was executed by a node that is a replica (a demoted
+							// master keeps serving reads because the proxy sends READONLY on every backend connection)
+							clause = "linearizable-read-at-demoted-master"
+						}
+					}
+					return &simrtViolation{Clause: clause, Detail: fmt.Sprintf("history of key %q has no linearization w.r.t. a single Redis server: %s", k, describe())}
+				case porcupine.Unknown:
+					w.inconclusive = true
+					continue
 				}
-				return &simrtViolation{Clause: clause, Detail: fmt.Sprintf("history of key %q has no linearization w.r.t. a single Redis server: %s", k, describe())}
-			case porcupine.Unknown:
-				w.inconclusive = true
-				continue
+				switch porcupine.CheckOperationsTimeout(c04Model(one, true), ops, linTimeout) {
+				case porcupine.Illegal:
+					anyRedir := false
+					for _, o := range ops {
+						if redirected[formKey(o.Input.(c04In).args)] {
+							anyRedir = true
+						}
+					}
+					clause := "program-order"
+					if anyRedir {
+						clause = "program-order-across-redirection"
+					}
+					return &simrtViolation{Clause: clause, Detail: fmt.Sprintf("history of key %q is linearizable only by executing two requests of one connection out of order: %s", k, describe())}
+				case porcupine.Unknown:
+					w.inconclusive = true
+				}
 			}
-			switch porcupine.CheckOperationsTimeout(c04Model(one, true), ops, 20*time.Second) {
-			case porcupine.Illegal:
-				anyRedir := false
-				for _, o := range ops {
-					if redirected[formKey(o.Input.(c04In).args)] {
-						anyRedir = true
-					}
-				}
-				clause := "program-order"
-				if anyRedir {
-					clause = "program-order-across-redirection"
-				}
-				return &simrtViolation{Clause: clause, Detail: fmt.Sprintf("history of key %q is linearizable only by executing two requests of one connection out of order: %s", k, describe())}
-			case porcupine.Unknown:
-				w.inconclusive = true
-			}
-		}
+			return nil
+		})
 		if len(w.redirectsAtProbe) >= 2 && w.probeRound >= 2 {
 			if d := cl.Redirects - w.redirectsAtProbe[1]; d > 0 {
 				return &simrtViolation{Clause: "routing-converges", Detail: fmt.Sprintf("%d redirections during the second probe round, long after the last migration / fail-over step", d)}
